@@ -13,7 +13,10 @@ from vlib import Check, ModelError
 SPEC = os.path.join(vlib.ROOT, "spec", "Mesh")
 P_INV = ["P_MotherUntouched", "P_DaughtersManifold", "P_DaughtersNormals", "P_DaughtersCompact", "P_DaughtersEdgeIndex", "P_Outward", "P_OwnSide",
          "P_VolumeSum", "P_TargetVolumeHalved", "P_SameType"]
-AXES = [None, [1, 0, 0], [-1, 0, 0], [0, 1, 0], [0, -1, 0], [0, 0, 1], [0, 0, -1], [1, 1, 1], [0.3, -0.8, 0.52], [-0.2, 0.1, -0.97], [1, 1, 0]]
+AXES = [None, [1, 0, 0], [-1, 0, 0], [0, 1, 0], [0, -1, 0], [0, 0, 1], [0, 0, -1], [1, 1, 1], [0.3, -0.8, 0.52], [-0.2, 0.1, -0.97], [1, 1, 0],
+        # almost, but not exactly, along a coordinate axis (1 degree, 0.6 degree, 0.01 degree): where a special case for "the axis IS z"
+        # written with a tolerance would take over
+        [0.015, 0.01, 1], [0.008, -0.006, 1], [0.0002, 0.0001, 1], [1, 0.012, -0.01], [0.01, -1, 0.014], [0.012, 0.009, -1]]
 
 
 def cases(tier, seed):
@@ -28,6 +31,9 @@ def cases(tier, seed):
             add(shape="sphere", level=2, scale=4e-6, pos=[1e-5, -2e-5, 3e-6], axis=a, lmin=1e-6, seed=seed + i, stretch=[1.3, 1.0, 0.9], jitter=jit, dirty=(i % 3 == 0))
         for i, a in enumerate(AXES[:7]):
             add(shape="box", dims=[2, 1, 1], sub=2, scale=3e-6, pos=[0, 0, 0], axis=a, lmin=7.5e-7, seed=seed + 20 + i, jitter=jit)
+    # the same mothers at other length scales (metres, nanometres, kilometres): nothing in a division may depend on the unit of length
+    for i, (sc, a) in enumerate([(1.0, None), (1.0, [0.3, -0.8, 0.52]), (3e-9, None), (3e-9, [0, 0, 1]), (1e3, [0.3, -0.8, 0.52])]):
+        add(shape="sphere", level=2, scale=sc, pos=[2.5 * sc, -5 * sc, 0.75 * sc], axis=a, lmin=0.25 * sc, seed=seed + 60 + i, stretch=[1.3, 1.0, 0.9], jitter=0.03, dirty=False)
     if tier == "thorough":
         for n in range(220):
             shape = rnd.choice(["sphere", "sphere", "box"])
